@@ -8,7 +8,7 @@
 (*             not = complement, allOf<<s>> = s, anyOf<<s>> = s, oneOf<<s>> = s (non-null),    *)
 (*             enum <<v>> accepts v;                                                           *)
 (*  Monotone   adding a keyword other than nullable never enlarges the (non-null)       *)
-(*             accepted set.                                                                   *)
+(*             accepted set (except "properties" next to "additionalProperties").              *)
 EXTENDS Gen_C01, SchemaImpl, FindingsC01
 
 NonNull == {i \in DOMAIN Vals : Vals[i].t # "null"}
@@ -31,6 +31,8 @@ Laws ==
 Monotone ==
    wraps = 0 =>
       \A a \in Atoms :
-         (CanAdd(s, a) /\ a.f # "nullable" /\ own < K)
+         (CanAdd(s, a) /\ a.f # "nullable" /\ own < K
+          \* "properties" takes the keys it declares out of the reach of "additionalProperties": next to it, it may enlarge
+          /\ (a.f = "props" => ~Has(s, "apFalse") /\ ~Has(s, "apSchema")))
             => \A i \in NonNull : Valid(With(s, a), Vals[i], "plain") => Valid(s, Vals[i], "plain")
 =============================================================================
